@@ -166,7 +166,7 @@ _claim("C18", "other",
        "Apportionment (haplobin), block values, OHV/OPV vs brute force are the bounded native ring, so the property as a whole is not claimed as proof. Four genuine defect "
        "classes of the partition routines are recorded as known findings.", "python list append / numpy.int_ of a list are modelled (pyvc/loopcut.py SymList).")
 _claim("C19", "other",
-       "bounded symbolic execution (mode B) of the real Pareto filter and dominance predicate for all real coordinates (npt<=4, nobj<=3) + native ring incl. exhaustive grids",
+       "deductive: loop-invariant VCs generated from the real is_pareto_efficient source (while loop cut, boolean-mask compression / any(axis=1) / prefix count by ghost contracts, z3 + cvc5) + bounded symbolic execution (mode B) of the Pareto filter, the dominance predicate and both distance transforms + native ring incl. exhaustive grids",
        "For every real-valued point set of up to 4 points x 2 objectives (3 objectives up to 3 points; thorough 5 points) and every sign vector the real filter is proved "
        "to mark exactly the non-dominated points (soundness and completeness, mask == index form), path-exhaustively; `dominates` is proved equal to its definition for "
        "nobj<=3. Distance transforms, invariances and larger sets are the bounded native ring. Two genuine defects of the distance transforms were repaired.", "")
@@ -185,9 +185,16 @@ _EXTRA = {
            "within 1e-5 (1e-8) of it.",
     "C12": " The usefulness-criterion helper _calc_uc is proved bounded-symbolically to be the expected-parental-contribution mean plus intensity times the square root "
            "of the variance of that cross.",
-    "C18": " _calc_ohvmat == ploidy * sum over blocks of the best haplotype among the cross's parents, bounding every block-wise doubled haploid, chunk-invariant, and "
+    "C18": " nhaploblk_chrom is PROVED for every number of chromosomes and blocks (mode A2, greedy loop cut by the invariant 'every count >= 1 and the "
+           "counts sum to nchr + i'; the sum is a ghost prefix sum and the increment a point update related to the previous sum by an induction lemma "
+           "whose step is proved on the spot): every chromosome gets at least one block and the counts add up to exactly the requested total; an "
+           "exception is raised only for fewer blocks than chromosomes. _calc_ohvmat == ploidy * sum over blocks of the best haplotype among the cross's parents, bounding every block-wise doubled haploid, chunk-invariant, and "
            "haplomat's block values (which conserve the additive value) are proved bounded-symbolically for all block values / alleles / effects.",
-    "C19": " Both trans_ndpt_to_vec_dist implementations are proved (fronts of <=2 points x 2 objectives, thorough 3; coordinates symbolic) to return the distance of the "
+    "C19": " is_pareto_efficient is additionally PROVED for every number of points and objectives (mode A2: the while loop over the shrinking "
+           "survivor list is cut by an invariant -- survivors are increasing original indices, rows are their weighted points, every processed "
+           "pivot is beaten somewhere by every other survivor, every original point is weakly dominated by a survivor -- with boolean-mask "
+           "compression through the ghost enumeration of the mask): the result is a non-dominated cover in index and in mask form."
+           " Both trans_ndpt_to_vec_dist implementations are proved (fronts of <=2 points x 2 objectives, thorough 3; coordinates symbolic) to return the distance of the "
            "range-normalised weighted point to the preference ray, every positive range being rescaled however small and exactly constant objectives contributing 0.",
 }
 for _k, _v in _EXTRA.items():
